@@ -736,7 +736,18 @@ func loopInvariant(v ssa.Value, loop map[*ssa.BasicBlock]bool) bool {
 			}
 			return true
 		}
-	case *ssa.Extract, *ssa.Call, *ssa.Phi, *ssa.BinOp:
+	case *ssa.Call:
+		// len / cap of a slice, string or array value that is itself invariant: the value is immutable, so is its length
+		if n := calleeName(x); (n == "builtin:len" || n == "builtin:cap") && len(x.Call.Args) == 1 {
+			switch x.Call.Args[0].Type().Underlying().(type) {
+			case *types.Slice, *types.Basic, *types.Array:
+				if loopInvariant(x.Call.Args[0], loop) {
+					return true
+				}
+			}
+		}
+		return !loop[x.Block()]
+	case *ssa.Extract, *ssa.Phi, *ssa.BinOp:
 		if in, ok := v.(ssa.Instruction); ok {
 			return !loop[in.Block()]
 		}
